@@ -575,7 +575,13 @@ class Interp:
             elif isinstance(v, ast.FormattedValue):
                 x = self.ev(v.value, env)
                 if v.format_spec is not None or v.conversion not in (-1, 115):
-                    sx = self.ver.opaque_str("fmt", x, self)
+                    # one uninterpreted function per (conversion, format spec): `{x:02d}` and `{x:03d}` must not be
+                    # identified with each other
+                    if v.format_spec is not None and any(isinstance(c, ast.FormattedValue) for c in ast.walk(v.format_spec)):
+                        raise Unsupported("f-string with a computed format spec")
+                    tag ="fmt_%s_%s" % (v.conversion, "".join(c if c.isalnum() else "_" for c in (
+                        ast.unparse(v.format_spec) if v.format_spec is not None else "")))
+                    sx = self.ver.opaque_str(tag, x, self)
                 else:
                     sx = self.to_str(x)
                 parts.append(sx.e)
